@@ -1,7 +1,7 @@
 --------------------------- MODULE WindowCountTrace ---------------------------
 (* Trace specification for count windows (periodCount/everyCount), one group *)
 (* per trace, same line format as WindowTrace:                               *)
-(*   Reset {period, every, fill, sink}   Point {t, seq}   End                *)
+(*   Reset {period, every, fill, sink}   Point {t, seq}   Quiet   End        *)
 EXTENDS WindowCount, TraceCommon
 
 VARIABLES l, obs
@@ -42,13 +42,32 @@ TrPoint ==
             /\ Head(obs).pts = b.pts
             /\ obs' = Tail(obs)
 
+(* Quiet: the window node holds no group any more (see WindowTrace): the    *)
+(* group, if it existed, was deleted; a barrier does nothing to a count     *)
+(* window.  The come-back counts from one again.                             *)
+TrQuiet ==
+    /\ IsEv("Quiet")
+    /\ cst' = [cst EXCEPT ![G] = CGroup0]
+    /\ crecv' = [crecv EXCEPT ![G] = <<>>]
+    /\ cout' = [cout EXCEPT ![G] = <<>>]
+    /\ UNCHANGED <<ccfg, cn, obs>>
+
+(* Holds {groups, phase_groups}: when the node had processed the points of  *)
+(* a phase (and before any idle barrier could fire) its working_cardinality *)
+(* was `groups`; every group of earlier phases had been deleted, so it must *)
+(* hold exactly one window per group it was given points for in this phase. *)
+TrHolds ==
+    /\ IsEv("Holds")
+    /\ Ln.groups = Ln.phase_groups
+    /\ UNCHANGED <<ccfg, cst, crecv, cout, cn, obs>>
+
 TrEnd ==
     /\ IsEv("End")
     /\ Ln.failed = FALSE      \* no node of the task died
     /\ obs = <<>>            \* the sink saw nothing the window should not have emitted
     /\ UNCHANGED <<ccfg, cst, crecv, cout, cn, obs>>
 
-TrNext == TrReset \/ TrPoint \/ TrEnd
+TrNext == TrReset \/ TrPoint \/ TrQuiet \/ TrHolds \/ TrEnd
 TrSpec == TrInit /\ [][TrNext]_ctrvars
 
 HW == HWMark(l)
